@@ -231,7 +231,15 @@ class Scheduler:
         if t is None or t.real is not threading.current_thread():
             raise HarnessError("point() from a thread that does not hold the baton: %r" % op.label)
         t.pending = op
-        self.dispatch(t)
+        try:
+            self.dispatch(t)
+        except Abort:
+            raise
+        except BaseException:   # noqa -- scheduler bug: end the execution as a harness error, never hang
+            self.internal_error = traceback.format_exc()
+            self.outcome = "internal-error"
+            self._abort()
+            raise Abort()
         if self.aborting:
             raise Abort()
         to = t.timed_out
@@ -363,6 +371,10 @@ class Scheduler:
             self.dispatch(t)
         except Abort:
             pass
+        except BaseException:   # noqa -- a bug in the scheduler must never leave everybody parked
+            self.internal_error = traceback.format_exc()
+            self.outcome = "internal-error"
+            self._abort()
 
     def _abort(self):
         if self.aborting:
@@ -413,7 +425,19 @@ class Scheduler:
             t0 = self.spawn("main", main)
             self.current = t0
             t0.lock.release()
-            self.done_event.wait()
+            if not self.done_event.wait(float(os.environ.get("VERIF_EXEC_TIMEOUT", "60"))):
+                frames = sys._current_frames()
+                dump = []
+                for t in self.tasks:
+                    fr = frames.get(t.real.ident)
+                    dump.append("task %s (%s) state=%s pending=%s\n%s" % (
+                        t.lname, t.role, t.state, None if t.pending is None else t.pending.label,
+                        "".join(traceback.format_stack(fr)[-5:]) if fr is not None else "  (no frame)\n"))
+                self._abort()
+                raise HarnessError("execution did not finish (prefix %r, steps %d, current %s):\n%s" % (
+                    self.prefix, self.steps, None if self.current is None else self.current.lname, "\n".join(dump)))
+            if getattr(self, "internal_error", None):
+                raise HarnessError("scheduler internal error:\n" + self.internal_error)
             for t in self.tasks:
                 t.real.join(60)
                 if t.real.is_alive():
@@ -544,8 +568,21 @@ class Explorer:
             p, e = pcost[0]
             return ((self.BIG if self.pbound is None else self.pbound - p), self.ebound - e)
         cache = self.cache if (use_cache if use_cache is not None else self.use_cache) else None
-        s = Scheduler(prefix, cache, budget_left, self.racy, record_trace)
-        r = s.run(self.driver)
+        for attempt in range(3):
+            pcost[0] = None
+            s = Scheduler(prefix, cache, budget_left, self.racy, record_trace)
+            try:
+                r = s.run(self.driver)
+                break
+            except HarnessError as e:
+                # executions are deterministic functions of the prefix: a stuck harness thread (never observed twice
+                # for the same prefix) is retried and counted; anything else is an error
+                global _CUR
+                _CUR = None
+                if attempt == 2 or "did not" not in str(e):
+                    raise
+                self.stats["harness_retries"] = self.stats.get("harness_retries", 0) + 1
+                sys.stderr.write("harness retry %d: %s\n" % (attempt + 1, str(e)[:2000]))
         if r.outcome == "divergence":
             raise ReplayDivergence("%s (prefix %r)" % (r.diverge_msg, prefix))
         if len(r.choices) < len(prefix):
@@ -719,6 +756,9 @@ def explore_parallel(make_explorer, nproc, bits=22):
 
     def worker(wi):
         try:
+            if os.environ.get("VERIF_WATCHDOG"):
+                import faulthandler
+                faulthandler.dump_traceback_later(int(os.environ["VERIF_WATCHDOG"]), exit=True)
             par.pin_self(par._ALL_CPUS[wi % len(par._ALL_CPUS)])
             ex = make_explorer()
             ex.cache = cache
@@ -770,16 +810,32 @@ def explore_parallel(make_explorer, nproc, bits=22):
         p.start()
     err = None
     try:
+        reported = set()
         for _ in range(nproc):
-            wi, st, viol, obs, rc, grew, labels, capped, samples, cov, e = res_q.get()
+            while True:
+                try:
+                    item = res_q.get(timeout=5)
+                    break
+                except _q.Empty:
+                    dead = [i for i, p in enumerate(procs) if i not in reported and not p.is_alive()]
+                    if dead:
+                        # give a result that was just flushed a last chance, then give up on that worker
+                        try:
+                            item = res_q.get(timeout=5)
+                            break
+                        except _q.Empty:
+                            stop.value = 1
+                            raise HarnessError("explorer worker(s) %r exited without reporting" % dead)
+            wi, st, viol, obs, rc, grew, labels, capped, samples, cov, e = item
+            reported.add(wi)
             if e is not None:
                 err = e
                 continue
             for k, val in st.items():
                 if k.startswith("max_"):
-                    root.stats[k] = max(root.stats[k], val)
+                    root.stats[k] = max(root.stats.get(k, 0), val)
                 else:
-                    root.stats[k] += val
+                    root.stats[k] = root.stats.get(k, 0) + val
             for key, (item, rep, cnt) in viol.items():
                 old = root.violations.get(key)
                 if old is None:
